@@ -570,6 +570,8 @@ class RequireCommand(ControlCommand):
     loaded_extensions: List[str] = []
 
     def complete_cb(self):
+        if "capabilities" not in self.arguments:
+            return
         if type(self.arguments["capabilities"]) != list:
             exts = [self.arguments["capabilities"]]
         else:
